@@ -157,6 +157,8 @@ prop("C13", modules=["version"],
 prop("C14", modules=["deps"],
      functions=[MFN + "_validate_dependency", MFN + "call", MFN + "call_batch",
                 "dependency_graph:DependencyGraph.transitive_memento_fn_dependencies", "dependency_graph:DependencyGraph.direct_memento_fn_dependencies",
+                # the graph is linked by the parts of a rule key: parse_key is the inverse of the key construction proved under C03
+                "dependency_graph:DependencyGraph.parse_key",
                 # the scope of the collection ("plain helper functions of the same package"): the package_scope handed to collect_transitive_dependencies
                 MFN + "_recompute_version",
                 # the traversal itself: which names are visited from which function, what is recorded for a name that does or does not resolve
